@@ -48,6 +48,9 @@ def expand_minimal_spaces(
         if node["expanded"]:
             return
 
+        # Attractor data computed while the node had no successors is no longer valid.
+        sd._clear_node_attractor_data(node_id)  # type: ignore
+
         skip_edges = 0
         for m_trap in all_minimal_traps:
             if is_subspace(m_trap, sd.node_data(node_id)["space"]):
